@@ -21,8 +21,8 @@ def has_float(e) -> bool:
 def close(a: Fraction, b: Fraction, floaty: bool) -> bool:
     if a == b:
         return True
-    if not floaty:
-        return False
+    if not floaty and max(abs(a), abs(b)) < 10**14:
+        return False   # (numbers beyond 15 digits are rounded by bartiq's numeric folding even when integral)
     scale = max(abs(a), abs(b), Fraction(1, 10**300))
     return abs(a - b) <= scale * Fraction(1, 10**12)
 
@@ -69,3 +69,71 @@ def sem_equal(real, tree, rng: random.Random, extra_names=(), k=4, funcs=None):
         if decided >= k:
             break
     return ("equal", decided) if decided else ("undecided", "no common point of definition found")
+
+
+def sem_equal_real(a, b, rng: random.Random, rename=None, k=3, funcs=None):
+    """both sides come from the implementation (sympy / numbers).  `rename` maps symbol names of `a` to names of `b`.
+    -> (verdict, detail)"""
+    rename = rename or {}
+    fa, fb = E.sympy_fv(a), E.sympy_fv(b)
+    names_b = fb | {rename.get(n, n) for n in fa}
+    decided = 0
+    for env_b in points(names_b, rng, k + 4):
+        salt = rng.randint(0, 10**6)
+        env_a = {n: env_b[rename.get(n, n)] for n in fa}
+        try:
+            va = E.sympy_ev(a, env_a, salt, funcs)
+            vb = E.sympy_ev(b, dict(env_b), salt, funcs)
+        except (E.Undefined, OverflowError, KeyError):
+            continue
+        if not close(va, vb, has_float(a) or has_float(b)):
+            return "different", {"point": {k_: str(v) for k_, v in env_b.items()}, "left": str(va), "right": str(vb)}
+        decided += 1
+        if decided >= k:
+            break
+    return ("equal", decided) if decided else ("undecided", "no common point of definition found")
+
+
+def trees_equal_real(ca, cb, rng, rename=None, constraints=True, path=()):
+    """two real CompiledRoutine trees, matched by name; -> list of differences"""
+    out = []
+    where = ".".join(path) or "root"
+    if set(ca.children) != set(cb.children):
+        return [(where, "children", sorted(ca.children), sorted(cb.children))]
+    if set(ca.resources) != set(cb.resources):
+        return [(where, "resource names", sorted(ca.resources), sorted(cb.resources))]
+    if set(ca.ports) != set(cb.ports):
+        return [(where, "port names", sorted(ca.ports), sorted(cb.ports))]
+    for rn in ca.resources:
+        if ca.resources[rn].type != cb.resources[rn].type:
+            out.append((where, f"type of {rn}", ca.resources[rn].type.value, cb.resources[rn].type.value))
+        v, d = sem_equal_real(ca.resources[rn].value, cb.resources[rn].value, rng, rename)
+        if v == "different":
+            out.append((where, f"resource {rn}", str(ca.resources[rn].value), str(cb.resources[rn].value), d))
+    for pn in ca.ports:
+        v, d = sem_equal_real(ca.ports[pn].size, cb.ports[pn].size, rng, rename)
+        if v == "different":
+            out.append((where, f"port {pn}", str(ca.ports[pn].size), str(cb.ports[pn].size), d))
+    if constraints:
+        la, lb = list(ca.constraints), list(cb.constraints)
+        if len(la) != len(lb):
+            out.append((where, "number of constraints", [(str(c.lhs), str(c.rhs)) for c in la], [(str(c.lhs), str(c.rhs)) for c in lb]))
+        else:
+            # match as multisets: each constraint of a must equal (both sides, either orientation) an unused one of b
+            used = set()
+            for c in la:
+                hit = None
+                for j, d in enumerate(lb):
+                    if j in used:
+                        continue
+                    ok1 = sem_equal_real(c.lhs, d.lhs, rng, rename)[0] != "different" and sem_equal_real(c.rhs, d.rhs, rng, rename)[0] != "different"
+                    if ok1:
+                        hit = j
+                        break
+                if hit is None:
+                    out.append((where, "constraint without counterpart", (str(c.lhs), str(c.rhs)), [(str(d.lhs), str(d.rhs)) for d in lb]))
+                else:
+                    used.add(hit)
+    for cn in ca.children:
+        out += trees_equal_real(ca.children[cn], cb.children[cn], rng, rename, constraints, path + (cn,))
+    return out
